@@ -103,6 +103,18 @@ def _run(ch, kind, k, window=0.0, variant="blackout"):
         return None
 
     rig.man.on_event = on_event
+    if variant == "corrupt-files":
+        # the spa's first two config-file answers name two different platforms: the handshake raises in the parser
+        left = [2]
+
+        def corrupt(data):
+            if b"FILES," in data and left[0] > 0:
+                left[0] -= 1
+                i = data.index(b"FILES,") + 6
+                return data[:i] + b"inZZ" + data[i + 4:]
+            return data
+
+        rig.peer.reply_filter = corrupt
     if variant == "send-error":
         # one datagram send of the connection fails in steady state (5 s after the start): asyncio calls error_received
         state = {"armed": False, "done": False}
@@ -128,7 +140,15 @@ def _run(ch, kind, k, window=0.0, variant="blackout"):
             rig.loop.call_at(rig.loop.time() + 0.5, noise)
 
         rig.loop.call_at(rig.loop.time() + 5.0, noise)
-    done = rig.loop.run_steps(k)
+    if window > 0 and k > 150:
+        # wake-up jitter: the last 150 loop steps BEFORE the injection run with timer-order choices, so the
+        # injection lands in differently interleaved states
+        done = rig.loop.run_steps(k - 150)
+        rig.loop.timer_choices_enabled = True
+        done += rig.loop.run_steps(150)
+        rig.loop.timer_choices_enabled = False
+    else:
+        done = rig.loop.run_steps(k)
     if done < k:
         rig.close()
         return None, "beyond", "beyond"
@@ -260,6 +280,63 @@ def _variant_window():
     return first, first + 420
 
 
+def _auto_job(job):
+    """The library's OWN reset: a connection in an error state (pings missed / RF errors) is reset by the ping loop
+    when the spa answers again.  Same obligations: endpoints and tasks of the abandoned connection go away, counts
+    return to those of the first connection."""
+    phase, dur, yielding = job
+    rig = Rig(Chooser())
+    if yielding:
+        rig.man.on_event = lambda event, kw: _slow(0.05)
+    why = None
+    if not rig.connect(200.0):
+        rig.close()
+        raise core.HarnessError("C10 auto-reset: no first connection")
+    rig.loop.run_for(5.0)
+    up0 = (len(rig.net.open_transports()), len(_lib_tasks(rig.loop)))
+    rig.peer.set_mode(phase)
+    rig.loop.run_for(dur)
+    st = rig.man.spa_state
+    open_before = [t for t in rig.net.transports if not t.closed]
+    with rig.loop.running():
+        tasks_before = [t for t in asyncio.all_tasks(rig.loop) if not t.done()
+                        and t.get_name().split(":")[0] in ("SPA", "FACADE")]
+    n_ev = len(rig.man.events)
+    old_spa = rig.man._spa
+    rig.peer.set_mode("healthy")
+    t_h = rig.loop.time()
+    # did the library start to reset that connection?  (its disconnect announces itself)
+    began = rig.loop.run_for(400.0, lambda: any(e[1].name in ("RUNNING_SPA_DISCONNECTED", "CLIENT_FACADE_TEARDOWN")
+                                                for e in rig.man.events[n_ev:]))
+    if began:
+        t_r = rig.loop.time()
+        rig.loop.run_until(t_r + PROMPT)
+        alive = sorted(x.get_name() for x in tasks_before if not x.done())
+        still = [x for x in open_before if not x.closed]
+        if alive:
+            why = ("task-leak", f"{PROMPT}s after the library began to reset the connection these tasks of it are alive: {alive[:4]}")
+        elif still:
+            why = ("endpoint-leak", f"{PROMPT}s after the library began to reset the connection {len(still)} endpoint(s) of it are open "
+                                    f"(manager state {rig.man.spa_state.name})")
+        if why is None:
+            ok = rig.loop.run_for(300.0, lambda: rig.man.spa_state == S.CONNECTED and rig.man._spa is not old_spa)
+            if ok:
+                rig.loop.run_for(5.0)
+                up1 = (len(rig.net.open_transports()), len(_lib_tasks(rig.loop)))
+                if up1[0] > up0[0] or up1[1] > up0[1]:
+                    why = ("cycle-growth", f"(open endpoints, live tasks) 5 s after the first connection {up0}, after the automatic reconnection {up1}")
+    obs = core.digest([phase, dur, yielding, st.name, began, why])
+    try:
+        rig.exit()
+    except Exception:
+        pass
+    rig.close()
+    if why:
+        return (f"C10|auto-reset|{why[0]}|at={st.name}", f"{phase} for {dur:.0f}s{' (yielding client)' if yielding else ''}, then healthy: {why[1]}",
+                {"mode": "auto", "phase": phase, "dur": dur, "yielding": yielding}), obs, began
+    return None, obs, began
+
+
 def _cycles(n_cycles=6):
     """Reconnect cycles: resources measured at the same point of every cycle (CONNECTED + 5 s, and
     12 s after the reset) must not grow."""
@@ -305,6 +382,9 @@ def run(ctx):
     # third baseline: a client whose handler yields on every event; exit/reset at every step through discovery and handshake
     upto = marks.get("CONNECTED", 700) + 60
     jobs += [((kind, k, 0.0, "yielding-client"), ()) for kind in ("exit", "reset") for k in range(0, upto, 1 if not ctx.quick else 3)]
+    # fifth baseline: connection attempts that die in the parser (corrupted config-file answer), reset/exit afterwards
+    jobs += [((kind, k, 0.0, "corrupt-files"), ()) for kind in ("reset", "exit")
+             for k in range(marks.get("CONNECTING", 50), marks.get("CONNECTED", 700) + 900, 5 if ctx.quick else 1)]
     # fourth baseline: a failed datagram send in steady state, then reset/exit at steps from the failure on (strided)
     jobs += [((kind, k, 0.0, "send-error"), ()) for kind in ("reset", "exit") for k in range(n2[0] - 40, n2[0] + 9000, 331 if ctx.quick else 97)]
     by_state = {}
@@ -320,12 +400,28 @@ def run(ctx):
     ctx.log(f"{len(jobs)} injections over {n} baseline steps: {by_state}")
     # jitter around a few points
     te = 0
-    for kind, k in (("reset", marks.get("CONNECTING", 50) + 40), ("exit", marks.get("CONNECTED", 700) + 30)):
+    for kind, k in (("reset", marks.get("CONNECTING", 50) + 200), ("exit", marks.get("CONNECTING", 50) + 330),
+                    ("reset", marks.get("CONNECTED", 700) + 30), ("exit", marks.get("CONNECTED", 700) + 200)):
         st = explore.explore(ctx, _job, (kind, k, 0.049), bound=1, label=f"jitter {kind}@{k}", max_execs=5000)
         te += st["executions"]
         outcomes.update(st["obs"])
     evals += te
     ctx.set("jitter_executions", te)
+    if te < 20 and not ctx.violations:
+        raise core.HarnessError(f"C10: the jitter exploration met almost no choice points ({te} executions) - vacuous")
+    ajobs = [(ph, d, y) for ph in ("blackout", "rferr") for d in ((5.0, 70.0, 130.0, 200.0, 400.0) if not ctx.quick else (70.0, 200.0))
+             for y in (False, True)]
+    began_n = 0
+    for (viol, obs, began) in core.pmap(ctx, _auto_job, ajobs, chunksize=1):
+        evals += 1
+        outcomes.add(obs)
+        began_n += 1 if began else 0
+        if viol:
+            ctx.violation(*viol)
+    ctx.set("automatic_reset_scenarios", len(ajobs))
+    ctx.set("automatic_resets_observed", began_n)
+    if began_n == 0 and not ctx.violations:
+        raise core.HarnessError("C10: no automatic reset was ever observed - vacuous")
     why, counts = _cycles(6 if ctx.quick else 12)
     ctx.set("cycle_counts", [list(c) for c in counts])
     evals += 1
@@ -343,6 +439,14 @@ def run(ctx):
 
 
 def replay(ctx, data):
+    if data.get("mode") == "auto":
+        viol, _, _ = _auto_job((data["phase"], data["dur"], data["yielding"]))
+        if viol:
+            ctx.violation(*viol)
+        ctx.set("evaluations", 1)
+        ctx.set("distinct_nontrivial", 2)
+        ctx.set("rule", "replay")
+        return
     if data["mode"] == "cycles":
         why, _ = _cycles(6)
         if why:
